@@ -6,7 +6,18 @@ props = [json.loads(l) for l in open(os.path.join(HERE, "properties.jsonl"))]
 
 # property id -> (technique, level text, level note, design_ref)
 CLAIMED = {}
-NOT_APPLICABLE = {}
+NOT_APPLICABLE = {
+    "C16": "No contract within the verifier's reach decides this property. (1) send_tx obtains its inputs from a running node over JSON-RPC "
+           "(bits.rpc -> subprocess/HTTP); the harness can only stub that boundary, and a stubbed environment contract would carry the whole "
+           "conservation clause as an assumption. (2) Amounts are binary floats (`int(amount * 1e8)`): the verifier's integers are mathematical and "
+           "it has no float theory, so 'uses their exact satoshi values' cannot be stated as an obligation it discharges. (3) 'Every input's "
+           "unlocking data satisfies the locking script under Bitcoin's signature-hash and script rules' needs a script interpreter and a legacy "
+           "SignatureHash as the specification; the repository has neither (bits.script only serialises), so the postcondition would be a model "
+           "written here, i.e. proving a model. Reading the code against the statement did find candidate defects (DESIGN.md section 5, D23-D27: "
+           "float truncation of 0.29 BTC, BIP143 message built with the output index as input index, version/locktime not passed to the witness "
+           "message, legacy signing over the whole transaction for > 1 input); they are recorded in DESIGN.md as unverified observations, not as "
+           "findings of a check, because no check of this family reaches them.",
+}
 exec(open(os.path.join(HERE, "tools", "claims.py")).read())
 
 checks = []
@@ -22,7 +33,7 @@ for p in props:
         "evidence_file": f"evidence/{pid}.json",
         "replay_cmd_template": f"./check {pid} --replay {{path}}",
         "engine": "pyvc",
-        "level_claimed": {"category": "proof", "text": c["text"], "design_ref": c.get("design_ref", "DESIGN.md section 6")},
+        "level_claimed": {"category": c.get("category", "proof"), "text": c["text"], "design_ref": c.get("design_ref", "DESIGN.md section 6")},
         "level_note": c["note"],
         "technique": c["technique"],
     })
